@@ -195,6 +195,18 @@ int main(int argc, char **argv)
     ev_gcd(0x300000000ull, 0x200000000ull, 64);
     ev_gcd(0xFFFFFFFFFFFFFFFFull, 0xFFFFFFFFull, 64);
     ev_gcd(0xFFFFFFFFu, 0xFFFFu, 32);
+    /* least common multiples at the top of the representable range (the product still fits the word) */
+    ev_gcd(0xFFFFFFFFull, 0x100000001ull, 64);               /* lcm = 2^64 - 1 */
+    ev_gcd(3, 0x5555555555555555ull, 64);                    /* lcm = 2^64 - 1 */
+    ev_gcd(0xFFFFFFFFFFFFFFFFull, 1, 64);
+    ev_gcd(0xFFFFFFFFFFFFFFFFull, 0xFFFFFFFFFFFFFFFFull, 64); /* lcm(n, n) = n */
+    ev_gcd(0x8000000000000000ull, 0x8000000000000000ull, 64);
+    ev_gcd(0x8000000000000001ull, 0x8000000000000001ull, 64);
+    ev_gcd(0xFFFFu, 0x10001u, 32);                           /* lcm = 2^32 - 1 */
+    ev_gcd(3, 0x55555555u, 32);
+    ev_gcd(0xFFFFFFFFu, 0xFFFFFFFFu, 32);
+    ev_gcd(0x80000000u, 0x80000000u, 32);
+    for (int sh = 1; sh < 63; ++sh) { ev_gcd(1ull << sh, (1ull << (63 - sh)) | 1, 64); if (sh < 31) { ev_gcd(1u << sh, (1u << (31 - sh)) | 1, 32); } }
     /* bit reversal */
     for (uint32_t x = 0; x < 256; ++x) { ev_rev(x, 8); }
     for (uint32_t x = 0; x < 65536; x += 17) { ev_rev(x, 16); }
